@@ -74,6 +74,19 @@ def judge(case):
                 elif base is not None and base.shape == o.shape and not np.array_equal(o, base):
                     v(f"{name}:disagrees-with-im2col_v2", f"as_unfold={as_unfold} pad_value={pv}: max diff {np.max(np.abs(o - base))}")
             if pv == 0: cols_ref[as_unfold] = base
+    # --- the same image handed over in Fortran order / as a strided view: every variant must return the same matrices
+    if N * C * H * W > 1:
+        from mc import gradcheck
+        for lname, conv in gradcheck.LAYOUTS:
+            xa = conv(x.copy())
+            for name, f in im.items():
+                o = attempt(name, lambda: np.asarray(f(xa, K, dilation=D, stride=S, padding=P, pad_value=0, as_unfold=True)))
+                if o is not None and cols_ref.get(True) is not None and not (o.shape == cols_ref[True].shape and np.array_equal(o, cols_ref[True])):
+                    v(f"{name}:layout-dependent", f"image given in {lname} layout: the column matrix differs from the one for the contiguous image")
+            wa = attempt("extract_windows", lambda: np.asarray(ct.extract_windows(xa, K, S, P, D)))
+            w0 = attempt("extract_windows", lambda: np.asarray(ct.extract_windows(x, K, S, P, D)))
+            if wa is not None and w0 is not None and not np.array_equal(wa, w0):
+                v("extract_windows:layout-dependent", f"image given in {lname} layout: windows differ")
     # --- extract_windows agrees with the column matrix
     w = attempt("extract_windows", lambda: np.asarray(ct.extract_windows(x, K, S, P, D)))
     if w is not None and cols_ref.get(True) is not None:
